@@ -475,7 +475,60 @@ def m_union_dup(r, M):
     return True
 
 
-MUTATORS = [m_iface_arg_wrapper_kind, m_deprecated_required, m_impl_deprecated, m_iface_dup, m_union_dup, m_no_query, m_root_not_object, m_same_root, m_iface_missing_field, m_iface_field_type, m_iface_covariant_ok, m_iface_missing_arg,
+def m_own_specified_directive(r, M):
+    """The schema defines a directive of its own under the name of a specified one (legal), and - mostly - that definition
+    breaks one directive rule: it has to be validated like any other directive."""
+    ds = list(M['directives'])
+    new = r.choice(['skip', 'include'])
+    if not ds or new in M['directives']:
+        return False
+    d = M['directives'].pop(r.choice(ds))
+    M['directives'][new] = d
+    d['deprecation'] = None
+    d['locations'] = [x for x in d['locations'] if x in ('FIELD', 'FRAGMENT_SPREAD', 'INLINE_FRAGMENT', 'QUERY')] or ['FIELD']
+    k = r.random()
+    out = _oi(M) + _kinds(M, 'union')
+    if k < 0.25 and out:
+        d['args']['bad'] = {'type': r.choice([('n', r.choice(out)), ('nn', ('n', r.choice(out)))]), 'default': None, 'desc': None, 'deprecation': None}
+    elif k < 0.5:
+        d['args']['flag'] = {'type': ('nn', ('n', 'Boolean')), 'default': r.choice(['"yes"', '1', 'X']), 'desc': None, 'deprecation': None}
+    elif k < 0.65:
+        d['args']['__x'] = {'type': ('n', 'Int'), 'default': None, 'desc': None, 'deprecation': None}
+    elif k < 0.85:
+        d['args']['old'] = {'type': ('nn', ('n', 'Int')), 'default': None, 'desc': None, 'deprecation': 'gone'}
+    return True
+
+
+def m_cycle_with_bad_field_and_defaults(r, M):
+    """Two input objects on a (nullable, hence legal) cycle, one of which also has a field of a non-input type placed after
+    the field that enters the cycle; two arguments with defaults of these types, in either order: what the validator
+    concludes about one type while it is still inside the cycle must not be what it remembers about it."""
+    oi = _oi(M)
+    if not oi:
+        return False
+    T = M['types']
+    a, b = 'CycA', 'CycB'
+    if a in T or b in T:
+        return False
+    bad_field = {'type': ('n', r.choice(oi)), 'default': None, 'desc': None, 'deprecation': None}
+    to_b = {'type': r.choice([('n', b), ('l', ('n', b))]), 'default': None, 'desc': None, 'deprecation': None}
+    fields_a = [('b', to_b), ('q', bad_field)]
+    if r.random() < 0.3:
+        fields_a.reverse()
+    T[a] = {'kind': 'input', 'desc': None, 'fields': dict(fields_a), 'one_of': False}
+    T[b] = {'kind': 'input', 'desc': None, 'fields': {'a': {'type': ('n', a), 'default': None, 'desc': None, 'deprecation': None}}, 'one_of': False}
+    host = T[r.choice(oi)]
+    f = host['fields'][r.choice(list(host['fields']))]
+    new_args = [('cx', {'type': ('n', a), 'default': r.choice(['null', '{}', '{b: null}']), 'desc': None, 'deprecation': None}),
+                ('cy', {'type': ('n', b), 'default': r.choice(['{a: {q: 1}}', '{a: {b: null, q: 1}}', '{a: null}', '{a: {}}']), 'desc': None, 'deprecation': None})]
+    if r.random() < 0.4:
+        new_args.reverse()
+    for k, v in new_args:
+        f['args'][k] = v
+    return True
+
+
+MUTATORS = [m_own_specified_directive, m_own_specified_directive, m_cycle_with_bad_field_and_defaults, m_cycle_with_bad_field_and_defaults, m_iface_arg_wrapper_kind, m_deprecated_required, m_impl_deprecated, m_iface_dup, m_union_dup, m_no_query, m_root_not_object, m_same_root, m_iface_missing_field, m_iface_field_type, m_iface_covariant_ok, m_iface_missing_arg,
             m_iface_arg_type, m_iface_extra_required_arg, m_iface_extra_optional_arg_ok, m_iface_self, m_iface_missing_transitive,
             m_implements_non_interface, m_union_empty, m_union_non_object, m_empty_type, m_output_in_input, m_input_in_output, m_reserved_name,
             m_bad_default, m_null_default_for_non_null, m_input_cycle, m_input_cycle_list_ok, m_default_cycle, m_default_no_cycle_ok, m_oneof_nonnull,
